@@ -881,7 +881,12 @@ fn gen_raw(rng: &mut Rng, tier: Tier) -> Raw {
     // the extracted edit-distance model counts in unary and is quadratic in n even for a one-character query: 34 s per
     // case at n = 8192, so that size is not generated.)
     let (dfile, queries): (Vec<u8>, Vec<(String, bool)>) = if rng.chance(1, 300) {
-        let n = *rng.pick(&[1200usize, 1500]);
+        // one near-tie case in three has keys of 4141 / 4175 / 4198 clusters: for these n the doubles (n-1)/n and n/(n+1)
+        // are EQUAL after rounding to f32 (a first pass comparing `dists[i] as f32` sees a tie and returns the longer,
+        // more frequent key).  Affordable since the extracted model computes the distances in binary (C12_Fast.v /
+        // C20_Fast.v); what is left is the model's line reader (quadratic in the line length: about 9 s of model time
+        // per case at this size, 50 s at n = 8192).
+        let n = if rng.chance(1, 3) { *rng.pick(&[4141usize, 4175, 4198]) } else { *rng.pick(&[1200usize, 1500]) };
         let c = *rng.pick(&["a", "b"]);
         let (f1, f2) = (1 + rng.below(3), 4 + rng.below(3));
         let mut lines = vec![format!("{}\t{}", c.repeat(n), f1), format!("{}\t{}", c.repeat(n + 1), f2)];
@@ -1028,6 +1033,9 @@ impl Prop for C20 {
         }
         if r.dfile.split(|b| *b == b'\n').any(|l| l.len() > 1100) {
             tags.push("near-tie".into());
+            if r.dfile.split(|b| *b == b'\n').any(|l| l.len() > 4100) {
+                tags.push("near-tie-f32".into());
+            }
         }
         if !r.chars && r.max_size.map_or(false, |k| (1..=3).contains(&k)) && r.files.iter().any(|fb| fb.windows(3).any(|w| w == b"haa")) {
             tags.push("longtail".into());
